@@ -58,10 +58,11 @@ extern int mpt_meta_set(MPT_INTERFACE(metatype) **mptr, const MPT_STRUCT(value) 
 	}
 	/* default config data */
 	if (!val) {
-		/* try to reset existing iterator */
+		/* try to reset existing iterator, stored text is replaced */
 		MPT_INTERFACE(iterator) *it = 0;
 		
 		if (old
+		    && MPT_metatype_convert(old, MPT_type_toVector('c'), 0) < 0
 		    && MPT_metatype_convert(old, MPT_ENUM(TypeIteratorPtr), &it) >= 0
 		    && it
 		    && it->_vptr->reset(it) >= 0) {
